@@ -240,8 +240,11 @@ class BaseParagraph(debcon.FieldMixin):
             # we only strip leading spaces, including a possible first empty line
             mapping[name] = value.lstrip()
 
+            # the start line is the first line with some content
             start_line = field.start_line
-            if value.startswith('\n'):
+            for line in field.lines:
+                if line.value.strip():
+                    break
                 start_line += 1
             line_numbers_by_field[name] = (start_line, field.end_line,)
 
@@ -560,23 +563,22 @@ class DebianCopyright(object):
                 continue
 
             values = []
-            start_line = 1
-            end_line = 1
+            line_numbers = []
             for para in contigs:
                 values.extend(k for k in para.to_dict().values())
-                # the new start and end lines are the minimal first line and the
-                # maximal last line of contiguous paragraphs
-                first, last = para.get_first_last_line_numbers()
-                try:
-                    start_line = min([start_line, first])
-                    end_line = max([end_line, last])
-                except Exception as e:
-                    raise Exception(repr(e), start_line, first, end_line, last) from e
+                line_numbers.extend(para.line_numbers_by_field.values())
+
+            # the new start and end lines are the minimal first line and the
+            # maximal last line of contiguous paragraphs
+            line_numbers_by_field = {}
+            if line_numbers:
+                starts, ends = zip(*line_numbers)
+                line_numbers_by_field['unknown'] = (min(starts), max(ends),)
 
             paragraphs.append(
                 CatchAllParagraph(
                     extra_data={'unknown': debcon.from_formatted_lines(values)},
-                    line_numbers_by_field={'unknown':(start_line, end_line,)},
+                    line_numbers_by_field=line_numbers_by_field,
                 )
             )
 
@@ -608,12 +610,9 @@ class DebianCopyright(object):
                 para1.license.name = ''
                 para1.license.text = para2.to_dict()['unknown']
 
-                # The updated CopyrightLicenseParagraph paragraph lines extend
-                # from its original start line to the end line of the
-                # CatchAllParagraph
-                start_line, _end_line = para1.line_numbers_by_field.get('license', (1, 1))
-                _start_line, end_line = para2.line_numbers_by_field.get('unknown', (1, 1))
-                para1.line_numbers_by_field['license'] = (start_line, end_line,)
+                # The updated CopyrightLicenseParagraph license lines are the
+                # lines of the CatchAllParagraph that hold its text
+                para1.line_numbers_by_field['license'] = para2.line_numbers_by_field['unknown']
                 folded_previous = True
 
             paragraphs.append(para1)
